@@ -424,7 +424,7 @@ func (vfs *MemFS) Mkdir(name string, perm fs.FileMode) error {
 		return &fs.PathError{Op: op, Path: "", Err: vfs.err.NoSuchDir}
 	}
 
-	parent, _, pi, err := vfs.searchNode(name, slmEval)
+	parent, _, pi, err := vfs.searchNode(name, slmLstat)
 	if !vfs.isNotExist(err) || !pi.IsLast() {
 		return &fs.PathError{Op: op, Path: name, Err: err}
 	}
@@ -524,9 +524,19 @@ func (vfs *MemFS) OpenFile(name string, flag int, perm fs.FileMode) (avfs.File, 
 	at := int64(0)
 	om := avfs.ToOpenMode(flag)
 
-	parent, child, pi, err := vfs.searchNode(name, slmEval)
+	slm := slmEval
+	if om&avfs.OpenCreateExcl != 0 {
+		// With O_CREATE|O_EXCL a symbolic link as last element is not followed : it exists.
+		slm = slmLstat
+	}
+
+	parent, child, pi, err := vfs.searchNode(name, slm)
 	if err != vfs.err.FileExists && !vfs.isNotExist(err) || !pi.IsLast() {
 		return (*MemFile)(nil), &fs.PathError{Op: op, Path: name, Err: err}
+	}
+
+	if _, ok := child.(*symlinkNode); ok {
+		return (*MemFile)(nil), &fs.PathError{Op: op, Path: name, Err: vfs.err.FileExists}
 	}
 
 	if vfs.isNotExist(err) {
